@@ -440,4 +440,54 @@ func drawRoundVals(c *choice.Stream, cols []ColSpec, rows int) [][]any {
 	return out
 }
 
-func init() { _ = io.EOF }
+// ExpectedBlocks lists, per block the server must receive, the values of each
+// column: the initial contents (if any rows), then the contents after each
+// callback return that leaves rows, including rows left at io.EOF.
+func (p *InsertPlan) ExpectedBlocks() [][][]any {
+	var blocks [][][]any
+	if len(p.Initial) > 0 && len(p.Initial[0]) > 0 {
+		blocks = append(blocks, p.Initial)
+	}
+	for _, rd := range p.Rounds {
+		switch rd.Op {
+		case "reset-append", "eof-tail":
+			blocks = append(blocks, rd.Vals)
+		}
+	}
+	return blocks
+}
+
+// OnInput plays the plan: one round per invocation.
+func (p *InsertPlan) OnInput(cols []proto.Column, rec *Recorder) func(ctx context.Context) error {
+	round := 0
+	return func(ctx context.Context) error {
+		if err := rec.hit("input"); err != nil {
+			return err
+		}
+		if round >= len(p.Rounds) {
+			for _, col := range cols {
+				col.Reset()
+			}
+			return io.EOF
+		}
+		r := p.Rounds[round]
+		round++
+		for _, col := range cols {
+			col.Reset()
+		}
+		switch r.Op {
+		case "eof":
+			return io.EOF
+		case "reset-append", "eof-tail":
+			for i, col := range cols {
+				if err := gen.Fill(col, p.Cols[i].RT, r.Vals[i]); err != nil {
+					return err
+				}
+			}
+			if r.Op == "eof-tail" {
+				return io.EOF
+			}
+		}
+		return nil
+	}
+}
